@@ -43,6 +43,9 @@ def apis():
                                                                   randomSeed=seed)),
     }, {
         'NatafTransformation': lambda seed: nat(seed),
+        # marginals for which both fsolve starts fail and the constructor falls back on its grid search for the latent correlation
+        'NatafTransformation(fallback-search)': lambda seed: rpm.NatafTransformation([stats.lognorm(1.5), stats.weibull_min(0.5)],
+                                                                                      [[1.0, -0.7], [-0.7, 1.0]], randomSeed=seed),
         'MetropolisHastingsSampler()': lambda seed: rpm.MetropolisHastingsSampler(initialVal=[0.0], targetPdf=lambda x: 1.0,
                                                                                    proposalCSampler=lambda c: c, randomSeed=seed),
         'AuModifiedMHSampler()': lambda seed: rpm.AuModifiedMHSampler(initialVal=[0.0], targetPdf=[lambda x: 1.0],
